@@ -10,6 +10,7 @@ LEVEL_TEXT = (
     "for optimality: g - g[start] >= dist on discovered cells, == dist on closed cells, every edge out of a closed cell relaxed, priority = g + Manhattan "
     "distance. The step 'the cell with the least priority carries its true distance' uses one code-independent graph lemma (astar_cut: a shortest path leaves "
     "any set through a tight edge, and the Manhattan heuristic is consistent along it), which is machine-checked in Lean (lemmas/AstarCut.lean, thorough tier) and validated concretely against BFS on every run. "
+    "SolvedMaze.from_targeted_lattice_maze (solving a targeted maze: what MazePlot does for targeted mazes) is proved on top: same structure and endpoints, a shortest connected start-end path, ValueError exactly when unreachable. "
     "The bounded stand-in (all graphs up to 2x3/3x2, sampled or all 4096 graphs on 3x3, all ordered pairs, random larger graphs, against BFS) is kept as a cross-check."
 )
 LEVEL_NOTE = (
@@ -18,13 +19,14 @@ LEVEL_NOTE = (
     "floats of the score tables as reals. Termination not proved."
 )
 TECHNIQUE = "contract-based deductive verification (A* loop invariants incl. optimality over the real AST, z3/cvc5) + bounded comparison with BFS as cross-check"
-CONTRACT_MODULES = ["contracts.lattice_maze", "contracts.solver"]
+CONTRACT_MODULES = ["contracts.lattice_maze", "contracts.solver", "contracts.paths"]
 F = "maze_dataset/maze/lattice_maze.py"
 PROVE = [
     (F, "LatticeMaze.heuristic"),
     (F, "LatticeMaze.nodes_connected"),
     (F, "LatticeMaze.get_coord_neighbors"),
     (F, "LatticeMaze.find_shortest_path"),
+    (F, "SolvedMaze.from_targeted_lattice_maze"),
 ]
 ASSUMPTIONS = ["start and end are in-grid cells (callers pass cells of the maze)"]
 EXPLANATION = "see DESIGN.md C02"
